@@ -20,6 +20,13 @@ class Spec:
     case_timeout = 3600
     max_reports = 3
     source_files = ()             # anchored tlx sources the model transliterates (sentinel)
+    search_budget_s = 300         # wall-clock budget of the extra search rounds
+
+    def probe_lines(self, case, idx):
+        """Observation operations to append behind op `idx` of a case on which model and
+        implementation disagree structurally: queries that would expose the disagreement
+        as a failure of the property itself on the real code.  Default: none."""
+        return []
 
     def translator(self, ctx):
         """regenerate Gen/*.lean from /repo; return list of problems (strings)"""
@@ -123,7 +130,7 @@ def run(spec, tier, seed, replay=None):
                     if cls in reported or len(reported) >= spec.max_reports + 8:
                         continue
                     reported[cls] = (c, msg, kk)
-                for (c, i, a, m) in r.mismatch[:3]:
+                for (c, i, a, m) in r.mismatch[:12]:
                     mismatch_info.append((c, i, a, m))
 
             t = time.time()
@@ -136,12 +143,37 @@ def run(spec, tier, seed, replay=None):
             run_round(spec.cases(ctx, seed, gen_tier, 0), "generated")
             ctx.say(f"correspondence took {time.time()-t:.1f}s")
 
-            if (broken or mismatch_info) and not any(v[2] is None for v in reported.values()):
+            probed = [0]
+
+            def probe_new():
+                """probe the states on which model and implementation disagree with observations"""
+                fresh = mismatch_info[probed[0]:]
+                probed[0] = len(mismatch_info)
+                probes = []
+                for (c, i, a, m) in fresh[:12]:
+                    extra = spec.probe_lines(c, i)
+                    if extra:
+                        probes.append(c[:i + 1] + list(extra))
+                if probes:
+                    keep = list(mismatch_info)
+                    run_round(probes, "probe of disagreeing states")
+                    mismatch_info[:] = keep
+
+            no_input = lambda: not any(v[2] is None for v in reported.values())
+            if mismatch_info and no_input():
+                probe_new()
+            if (broken or mismatch_info) and no_input():
                 # something no longer checks: search harder for a failing input
+                t_search = time.time()
                 for rnd in range(1, spec.search_rounds + 1):
+                    if time.time() - t_search > spec.search_budget_s:
+                        ctx.say(f"search budget of {spec.search_budget_s}s used up")
+                        break
                     run_round(spec.cases(ctx, seed + 7919 * rnd, "thorough" if rnd > 2 else tier, rnd),
                               f"search round {rnd}")
-                    if any(v[2] is None for v in reported.values()):
+                    if no_input():
+                        probe_new()
+                    if not no_input():
                         break
 
     # ---- verdicts
